@@ -375,7 +375,8 @@ with get_arguments_p (fuel : nat) (arguments : option call_args) (sc : scope) {s
    own (`sc_intls` stays [] throughout: the memoizer is the bundle's, reached through PAsk). *)
 Definition format_pattern_p (fuel : nat) (pattern : pattern) : proc (bytes * scope) :=
   let+ (value, sc) := pattern_resolve_p (S fuel) pattern (scope_new []) in
-  PRet (Done (value_into_string formatter stringify_value value, sc)).
+  (* match pattern.resolve(..) { FluentValue::String(text) => text, value => value.into_string(&scope) } *)
+  PRet (Done (match value with VString text => text | _ => value_into_string formatter stringify_value value end, sc)).
 
 End ResolverP.
 
